@@ -1,1 +1,2 @@
 //! Drivers for emit_core / emit (pure and sequential APIs).
+pub mod c02;
